@@ -1046,7 +1046,12 @@ def _loops_to_reference(fn, rf, log, q):
                     dnode = ast.parse(ds[0], mode='eval').body
                 except SyntaxError:
                     continue
-                if not _pure_lookup(dnode):
+                # (a recorded local naming a string key, `kz = 'key'`, is
+                # spelled out the same way: the header is then also known
+                # with the key in place of the local)
+                if not (_pure_lookup(dnode) or (
+                        isinstance(dnode, ast.Constant) and
+                        isinstance(dnode.value, str) and dnode.value)):
                     continue
                 exp = _n(_Subst({nm: dnode}).visit(
                     ast.parse(it, mode='eval').body))
@@ -1378,7 +1383,8 @@ def _single_assign(fn, name):
     return None
 
 
-def _inline_temp(fn, name, allow_calls=False, ref_calls=None):
+def _inline_temp(fn, name, allow_calls=False, ref_calls=None,
+                 iter_only=False):
     h = _single_assign(fn, name)
     if h is None:
         return False
@@ -1415,7 +1421,10 @@ def _inline_temp(fn, name, allow_calls=False, ref_calls=None):
             if isinstance(r_, ast.Name) and r_.id == name:
                 return False
     if isinstance(val, (ast.List, ast.Dict, ast.Set, ast.ListComp,
-                        ast.DictComp, ast.SetComp)) and len(loads) > 1:
+                        ast.DictComp, ast.SetComp)) and len(loads) > 1 \
+            and not iter_only:
+        # (iter_only: the caller has established that every load is the
+        # iterable of a `for` and the display holds constants only)
         return False
     if has_call and len(loads) > 1 and not allow_calls:
         return False
@@ -1464,6 +1473,9 @@ def _rename(fn, mapping):
             n.id = mapping[n.id]
         elif isinstance(n, ast.arg) and n.arg in mapping:
             n.arg = mapping[n.arg]
+        elif isinstance(n, (ast.FunctionDef, ast.AsyncFunctionDef)) and \
+                n is not fn and n.name in mapping:
+            n.name = mapping[n.name]    # a nested def binds a local as well
 
 
 import re as _re
@@ -1723,6 +1735,225 @@ def _inline_hoisted(fn, rf, log, q):
         if not done:
             return
     ast.fix_missing_locations(fn)
+
+
+def _inline_literal_iterables(fn, rf, log, q):
+    """K = ['a', 'b', ...] hoisted out of `for p in K:` headers -> the
+    display back in the header(s), where the reference iterates over exactly
+    that display.  Side conditions: K is bound once, to a list/tuple display
+    of constants; *every* occurrence of K (nested functions included) other
+    than the binding is the iterable of a `for` statement, so the object is
+    never mutated, aliased or passed on and a fresh equal display per
+    evaluation of the header is indistinguishable; the binding precedes the
+    loops in its own block (checked by _inline_temp)."""
+    ref_locs = set(rf.get('locals', []))
+    ref_iters = {it for _t, it in rf.get('loops', [])}
+    for _ in range(20):
+        params, locs = local_order(fn)
+        done = False
+        for c_ in locs:
+            if c_ in ref_locs:
+                continue
+            h = _single_assign(fn, c_)
+            if h is None:
+                continue
+            val = h[2].value
+            if not (isinstance(val, (ast.List, ast.Tuple)) and val.elts and
+                    all(isinstance(e, ast.Constant) for e in val.elts)):
+                continue
+            disp = ast.List(elts=list(val.elts), ctx=ast.Load())
+            if _n(disp) not in ref_iters:
+                continue
+            iters = {id(x.iter) for x in _own_nodes(fn)
+                     if isinstance(x, ast.For)}
+            occ = [x for x in ast.walk(fn) if isinstance(x, ast.Name)
+                   and x.id == c_]
+            loads = [x for x in occ if isinstance(x.ctx, ast.Load)]
+            if len(occ) != len(loads) + 1 or not loads or \
+                    any(id(x) not in iters for x in loads):
+                continue
+            h[2].value = ast.copy_location(disp, val)
+            if _inline_temp(fn, c_, iter_only=True):
+                log.append('%s: literal key list %s inlined into its loop '
+                           'header(s)' % (q, c_))
+                done = True
+                break
+            h[2].value = val
+        if not done:
+            break
+    ast.fix_missing_locations(fn)
+
+
+def _pipeline_to_locals(fn, rf, log, q):
+    """A conditional pipeline of one-argument callables
+
+        L = []
+        [if c1:] L.append(E1)
+        [if c2:] L.append(E2)
+        ...
+        for f in L:
+            x = f(x)
+
+    -> one local per step that defaults to the identity (the recorded form
+    of such code: `g1 = identity; if c1: g1 = E1; ...; x = g2(g1(x))`):
+
+        def L__1(v): return v
+        L__2 = L__1
+        [if c1:] L__1 = E1
+        [if c2:] L__2 = E2
+        ...
+        x = L__2(L__1(x))
+
+    Side conditions, all syntactic: L is bound exactly once, to an empty
+    list display, in a block B; every other occurrence of L in the function
+    (nested functions included) is either an expression statement
+    `L.append(E)` that lies in B after the binding, directly or inside
+    `if` statements only (never in a loop / try / with / nested function, so
+    it runs at most once and the appends run in source order), or the
+    iterable of a `for f in L:` statement that lies in a statement of B after
+    the last statement containing an append (so it sees the complete list)
+    and whose body is the single statement `x = f(x)`; f occurs nowhere
+    else; x, f and L are distinct names.  Each E_k is evaluated at the same
+    point and under the same conditions as before; a step that was not
+    appended is the identity, which returns its argument itself.  Applied
+    only when the reference binds every E_k (up to renamed locals) to a
+    local, i.e. towards the recorded form."""
+    ref_locs = set(rf.get('locals', []))
+    params, locs = local_order(fn)
+    allnames = set(locs) | ref_locs | set(params)
+    ref_shapes = {_shape(d, allnames) for ds in rf.get('defs', {}).values()
+                  for d in ds}
+    for L in locs:
+        if L in ref_locs:
+            continue
+        h = _single_assign(fn, L)
+        if h is None:
+            continue
+        blk, i0, st0 = h
+        if not (isinstance(st0.value, ast.List) and not st0.value.elts):
+            continue
+        occ = [x for x in ast.walk(fn) if isinstance(x, ast.Name)
+               and x.id == L and x is not st0.targets[0]]
+        if not occ:
+            continue
+        accounted = set()
+        appends = []        # (index in blk, owner block, Expr stmt)
+        loops = []          # (index in blk, owner block, For stmt)
+        ok = True
+
+        def scan(stmts, top, only_ifs):
+            nonlocal ok
+            for st in stmts:
+                k = top if top is not None else blk.index(st)
+                if isinstance(st, (ast.FunctionDef, ast.AsyncFunctionDef,
+                                   ast.ClassDef)):
+                    continue
+                if isinstance(st, ast.Expr) and isinstance(
+                        st.value, ast.Call) and isinstance(
+                            st.value.func, ast.Attribute) and \
+                        st.value.func.attr == 'append' and isinstance(
+                            st.value.func.value, ast.Name) and \
+                        st.value.func.value.id == L:
+                    c = st.value
+                    if not only_ifs or len(c.args) != 1 or c.keywords or \
+                            isinstance(c.args[0], ast.Starred) or \
+                            L in _names(c.args[0]):
+                        ok = False
+                        return
+                    accounted.add(id(c.func.value))
+                    appends.append((k, stmts, st))
+                    continue
+                if isinstance(st, ast.For) and isinstance(
+                        st.iter, ast.Name) and st.iter.id == L:
+                    b = st.body
+                    if st.orelse or not isinstance(st.target, ast.Name) or \
+                            len(b) != 1 or not isinstance(b[0], ast.Assign) \
+                            or len(b[0].targets) != 1 or not isinstance(
+                                b[0].targets[0], ast.Name):
+                        ok = False
+                        return
+                    f, x, v = st.target.id, b[0].targets[0].id, b[0].value
+                    if not (isinstance(v, ast.Call) and isinstance(
+                            v.func, ast.Name) and v.func.id == f and
+                            len(v.args) == 1 and not v.keywords and
+                            isinstance(v.args[0], ast.Name) and
+                            v.args[0].id == x and len({f, x, L}) == 3):
+                        ok = False
+                        return
+                    accounted.add(id(st.iter))
+                    loops.append((k, stmts, st))
+                    continue
+                if isinstance(st, ast.If):
+                    scan(st.body, k, only_ifs)
+                    scan(st.orelse, k, only_ifs)
+                else:
+                    for fld in ('body', 'orelse', 'finalbody'):
+                        b = getattr(st, fld, None)
+                        if isinstance(b, list) and b and isinstance(
+                                b[0], ast.stmt):
+                            scan(b, k, False)
+                    if isinstance(st, ast.Try):
+                        for hd in st.handlers:
+                            scan(hd.body, k, False)
+                if not ok:
+                    return
+        scan(blk[i0 + 1:], None, True)
+        if not ok or not appends or not loops or len(appends) > 6 or \
+                any(id(x) not in accounted for x in occ):
+            continue
+        if max(k for k, _b, _s in appends) >= min(k for k, _b, _s in loops):
+            continue
+        fnames = {lp.target.id for _k, _b, lp in loops}
+        in_loops = set()
+        for _k, _b, lp in loops:
+            in_loops |= {id(x) for x in ast.walk(lp)}
+        if any(isinstance(x, ast.Name) and x.id in fnames and
+               id(x) not in in_loops for x in ast.walk(fn)) or \
+                fnames & set(params):
+            continue
+        if not all(_shape(_n(s_.value.args[0]), allnames) in ref_shapes
+                   for _k, _b, s_ in appends):
+            continue
+        used = {x.id for x in ast.walk(fn) if isinstance(x, ast.Name)} | \
+            set(params) | {x.name for x in ast.walk(fn) if isinstance(
+                x, (ast.FunctionDef, ast.AsyncFunctionDef, ast.ClassDef))}
+        gs = ['%s__%d' % (L, k + 1) for k in range(len(appends))]
+        if set(gs) & used:
+            continue
+        appends.sort(key=lambda t: (t[2].lineno, t[2].col_offset))
+        # the steps: L.append(E_k) -> g_k = E_k
+        for g, (_k, b_, s_) in zip(gs, appends):
+            new = ast.Assign(targets=[ast.Name(id=g, ctx=ast.Store())],
+                             value=s_.value.args[0])
+            b_[b_.index(s_)] = ast.copy_location(new, s_)
+        # the applications: for f in L: x = f(x) -> x = g_n(...g_1(x))
+        for _k, b_, lp in loops:
+            x = lp.body[0].targets[0].id
+            e = ast.Name(id=x, ctx=ast.Load())
+            for g in gs:
+                e = ast.Call(func=ast.Name(id=g, ctx=ast.Load()), args=[e],
+                             keywords=[])
+            new = ast.Assign(targets=[ast.Name(id=x, ctx=ast.Store())],
+                             value=e)
+            b_[b_.index(lp)] = ast.copy_location(new, lp)
+        # the defaults: identity
+        ident = ast.FunctionDef(
+            name=gs[0], args=ast.arguments(
+                posonlyargs=[], args=[ast.arg(arg='v')], kwonlyargs=[],
+                kw_defaults=[], defaults=[]),
+            body=[ast.Return(value=ast.Name(id='v', ctx=ast.Load()))],
+            decorator_list=[], returns=None, type_params=[])
+        head = [ast.copy_location(ident, st0)]
+        for g in gs[1:]:
+            head.append(ast.copy_location(ast.Assign(
+                targets=[ast.Name(id=g, ctx=ast.Store())],
+                value=ast.Name(id=gs[0], ctx=ast.Load())), st0))
+        blk[i0:i0 + 1] = head
+        ast.fix_missing_locations(fn)
+        log.append('%s: list of %d conversion step(s) %s applied in a loop '
+                   '-> one identity-default local per step (%s)'
+                   % (q, len(gs), L, ', '.join(gs)))
+        return
 
 
 def _sink_selected_callee(fn, rf, log, q):
@@ -2362,6 +2593,8 @@ def canonicalise(tree, modname, text=None):
         n0 = len(log)
         _sink_selected_callee(fn, rf, log, q)
         _inline_hoisted(fn, rf, log, q)
+        _inline_literal_iterables(fn, rf, log, q)
+        _pipeline_to_locals(fn, rf, log, q)
         _restore_bool_returns(fn, rf, log, q)
         _dictcomps_to_loops(fn, rf, log, q)
         _loops_to_comprehensions(fn, rf, log, q)
